@@ -101,7 +101,7 @@ func (st *State) strConst(s string) Value {
 		return Str{Ptr{id, e.k64(0)}, e.k64(int64(len(s)))}
 	}
 	id := st.allocN(int64(len(s)), nil, fmt.Sprintf("string %q", trunc(s, 24)))
-	o := st.objs[id]
+	o := st.newObj(id)
 	o.Cells = make(map[int64]Cell, len(s))
 	for i := 0; i < len(s); i++ {
 		o.Cells[int64(i)] = Cell{1, e.ctx.Const(uint64(s[i]), 8)}
@@ -373,8 +373,12 @@ func (st *State) exec(f *Frame, in ssa.Instruction) {
 		st.set(f, x, Iface{Dyn: x.X.Type(), V: st.get(f, x.X)})
 		f.pc++
 	case *ssa.MakeMap:
+		if x.Reserve != nil {
+			// make(map, hint) allocates buckets proportional to the hint (>= 8 bytes per slot here)
+			st.checkAlloc(st.idx64(st.get(f, x.Reserve), x.Reserve.Type()), 16, "make(map)")
+		}
 		id := st.allocN(8, x.Type(), "map")
-		st.objs[id].Map = &mapData{typ: under(x.Type()).(*types.Map)}
+		st.newObj(id).Map = &mapData{typ: under(x.Type()).(*types.Map)}
 		st.set(f, x, MapRef{id})
 		f.pc++
 	case *ssa.MakeSlice:
